@@ -570,10 +570,28 @@ pub fn load_only(m128: bool, kind: u8, file: &[u8], deliv: &Deliv) -> Result<(St
     let r = catch_unwind(AssertUnwindSafe(|| -> Result<(String, u64), String> {
         let mut e: Emu = Emulator::new(settings(&c), DCtx).map_err(|_| "Emulator::new failed".to_string())?;
         e.set_debug_interface(DDbg::default());
-        let a = deliv.make(file)?;
         let out = match kind {
-            0 => e.load_snapshot(Snapshot::Sna(a)),
-            _ => e.load_screen(rustzx_core::host::Screen::Scr(a)),
+            0 => e.load_snapshot(Snapshot::Sna(deliv.make(file)?)),
+            3 => e.load_snapshot(Snapshot::Szx(deliv.make(file)?)),
+            2 => {
+                // every 16K page of the set comes through its own asset of the delivery under test
+                struct Pages<A>(Vec<A>);
+                impl<A: rustzx_core::host::LoadableAsset> rustzx_core::host::RomSet for Pages<A> {
+                    type Asset = A;
+                    fn format(&self) -> rustzx_core::host::RomFormat {
+                        rustzx_core::host::RomFormat::Binary16KPages
+                    }
+                    fn next_asset(&mut self) -> Option<A> {
+                        if self.0.is_empty() { None } else { Some(self.0.remove(0)) }
+                    }
+                }
+                let mut pages = vec![];
+                for ch in file.chunks(16384) {
+                    pages.push(deliv.make(ch)?);
+                }
+                e.load_rom(Pages(pages))
+            }
+            _ => e.load_screen(rustzx_core::host::Screen::Scr(deliv.make(file)?)),
         };
         let outcome = match out {
             Ok(()) => "ok".to_string(),
